@@ -8,6 +8,7 @@ import MiniMcmcVerif.Driver.C17
 import MiniMcmcVerif.Driver.Stats
 import MiniMcmcVerif.Driver.C07
 import MiniMcmcVerif.Driver.C10
+import MiniMcmcVerif.Driver.C15
 
 open MiniMcmcVerif MiniMcmcVerif.Driver
 
@@ -28,6 +29,11 @@ def dispatch (line : String) : String :=
   | "c07" :: args => c07 args
   | "c10" :: args => c10 args
   | "c10w" :: args => c10w args
+  | "c15g2" :: args => c15g2 args
+  | "c15dg" :: args => c15dg args
+  | "c15iso" :: args => c15iso args
+  | "c15r2" :: args => c15r2 args
+  | "c15rn" :: args => c15rn args
   | _ => "bad-op"
 
 partial def loop (h : IO.FS.Stream) (out : IO.FS.Stream) : IO Unit := do
